@@ -19,7 +19,7 @@
 //! `last_update_time == time_exchange`. Order updates are partially filled Open snapshots only (the property is about OPEN orders'
 //! exchange data; a fully filled / inactive snapshot legitimately ends tracking), optionally with the order recorded OpenInFlight before
 //! and a cancel recorded in flight in between (the CancelInFlight arms of the guards).
-use crate::{eng::Rng, report};
+use crate::{rng::Rng, report};
 use barter::{
     Timed,
     engine::state::{
